@@ -28,6 +28,7 @@ thread_local! {
     static IN_PROCESS: Cell<bool> = Cell::new(false);
     static SERVERS: RefCell<HashMap<SocketAddr, ServerState>> = RefCell::new(HashMap::new());
     static POLICY: RefCell<Option<Policy>> = RefCell::new(None);
+    static UNREACHABLE: RefCell<Vec<SocketAddr>> = RefCell::new(Vec::new());
 }
 
 /// Switches the in-process transport on or off for the current thread.
@@ -44,6 +45,18 @@ pub fn in_process() -> bool {
 pub fn reset() {
     SERVERS.with(|s| s.borrow_mut().clear());
     POLICY.with(|p| *p.borrow_mut() = None);
+    UNREACHABLE.with(|u| u.borrow_mut().clear());
+}
+
+/// Makes a registered server unreachable (every request to it is refused) or reachable again.
+pub fn set_reachable(addr: SocketAddr, reachable: bool) {
+    UNREACHABLE.with(|u| {
+        let mut u = u.borrow_mut();
+        u.retain(|a| *a != addr);
+        if !reachable {
+            u.push(addr);
+        }
+    });
 }
 
 /// Installs the per-RPC fault policy (destination address, URI path) -> verdict.
@@ -65,6 +78,9 @@ pub(crate) fn register(addr: SocketAddr, state: ServerState) {
 }
 
 pub(crate) fn lookup(addr: SocketAddr) -> Option<ServerState> {
+    if UNREACHABLE.with(|u| u.borrow().contains(&addr)) {
+        return None;
+    }
     SERVERS.with(|s| s.borrow().get(&addr).cloned())
 }
 
